@@ -42,6 +42,9 @@ type DenseFloat64Matrix struct {
 /* constructors
  * -------------------------------------------------------------------------- */
 func NewDenseFloat64Matrix(values []float64, rows, cols int) *DenseFloat64Matrix {
+  if rows < 0 || cols < 0 || len(values) != rows*cols {
+    panic("NewMatrix(): Matrix dimension does not fit input values!")
+  }
   m := DenseFloat64Matrix{}
   m.values = values
   m.rows = rows
